@@ -1,5 +1,6 @@
 import ScryerModel.Proofs.QuoteEsc
 import ScryerModel.Proofs.QuoteMin
+import ScryerModel.Proofs.QuoteSeq
 /-!
 # C55 — writeq and print quote and space exactly as ISO requires
 
@@ -167,6 +168,30 @@ theorem C55_escapes_standard (u : UC) (c : Char) :
   · subst e11; simp [charToString, plainList]
   simp [charToString, plainList, e1, e2, e3, e4, e5, e6, e7, e8, e9, e10, e11]
 
+/-- `renderT` prints with the model's printer primitives (`emitItem` = `push_space_if_amb!` + `append_str!`,
+    `pushChar` = `push_char!`), one item after the other. -/
+theorem C55_renderT_is_render (u : UC) (items : List PItem) :
+    (renderT u items).1 = render u true (items.map (·.toItem u)) := by
+  have : ∀ (p : Out × List Tok), (items.foldl (fun (p : Out × List Tok) x =>
+      (emit u true p.1 (x.toItem u), p.2 ++ x.toks (endsSpace p.1.text))) p).1 =
+      (items.map (·.toItem u)).foldl (emit u true) p.1 := by
+    induction items with
+    | nil => intro p; rfl
+    | cons x xs ih => intro p; simp only [List.foldl_cons, List.map_cons]; rw [ih]
+  exact this _
+
+/-- **No token fusion.** Take any sequence of printed items — atoms with arbitrary text (written with
+    `quoted = true`), non-negative integers, the pushed characters `, ) [ ] | { }` and `(`, explicit
+    spaces — printed one after the other by the printer's own primitives, i.e. a space is inserted exactly
+    where `ambiguity_check` / `requires_space` ask for one (whatever text the ambiguity check is given).
+    Then the token reader reads the printed text back as exactly the tokens of the items, in order:
+    no two adjacent tokens merge, no token is split, and `(` is `Open` after a space and `OpenCT`
+    otherwise (so `foo (` never turns into a functional-notation `foo(`). Negative numbers are the
+    items `-` and the integer. -/
+theorem C55_no_token_fusion (u : UC) (hu : UCWF u) (items : List PItem) (hv : ∀ x ∈ items, x.Valid) :
+    tokens u (renderT u items).1.text = some (renderT u items).2 :=
+  render_tokens hu items hv
+
 /-- `write/1` (quoted = false) never quotes: the atom text is written unchanged. -/
 theorem C55_write_never_quotes (u : UC) (s : List Char) : printAtom u false s = s := by
   simp [printAtom, printAtomImpl]
@@ -182,11 +207,9 @@ theorem C55_pinned_two_quotes_witness :
 /-! ## Non-vacuity -/
 
 /-- `asciiUC` satisfies the hypothesis of the theorems. -/
-example : UCWF asciiUC := ⟨fun _ _ => rfl, fun _ _ => rfl, fun _ _ => rfl, fun _ _ => rfl, fun _ _ => rfl⟩
+example : UCWF asciiUC := asciiUC_wf
 /-- every `mkUC` table (what the driver uses) satisfies it. -/
-example (tbl : List (Nat × Nat)) : UCWF (mkUC tbl) :=
-  ⟨fun c h => by simp [mkUC, h], fun c h => by simp [mkUC, h], fun c h => by simp [mkUC, h],
-   fun c h => by simp [mkUC, h], fun c h => by simp [mkUC, h]⟩
+example (tbl : List (Nat × Nat)) : UCWF (mkUC tbl) := mkUC_wf tbl
 example : nonQuotedToken asciiUC "foo_Bar1".toList = true := by decide
 example : nonQuotedToken asciiUC "=..".toList = true := by decide
 example : nonQuotedToken asciiUC "[]".toList = true := by decide
@@ -196,6 +219,13 @@ example : nonQuotedToken asciiUC "Foo".toList = false := by decide
 example : nonQuotedToken asciiUC ",".toList = false := by decide
 example : nonQuotedToken asciiUC "|".toList = false := by decide
 example : printAtom asciiUC true "a b\n".toList = "'a b\\n'".toList := by decide
+example : (renderT asciiUC [.atom [] ['a'], .atom [] ['-'], .atom [] ['-'], .atom [] ['b']]).1.text = "a- -b".toList := by
+  decide
+example : (renderT asciiUC [.atom [] ['-'], .space, .open, .atom [] ['-'], .punct ')']).1.text = "- (-)".toList ∧
+    (renderT asciiUC [.atom [] ['-'], .space, .open, .atom [] ['-'], .punct ')']).2 =
+      [.name ['-'], .punct '(', .name ['-'], .punct ')'] := by decide
+example : (renderT asciiUC [.atom [] ['f'], .open, .atom [] [','], .punct ')']).2 =
+    [.name ['f'], .openCT, .name [','], .punct ')'] := by decide
 example : hexDigits 27 = ['1', 'b'] := by
   rw [hexDigits]; simp only [show ¬ (27 < 16) by decide, dite_false]; rw [hexDigits]; decide
 
